@@ -290,6 +290,55 @@ func verifC05_HostBits() {
 	}
 }
 
+// verifC05_ClientText: the client address as TEXT, in the notations a client address arrives in
+// (dotted IPv4, hexadecimal IPv6, IPv6 with a dotted-decimal tail as written for NAT64 prefixes):
+// the decision is the one for the address the text denotes.
+type vTextAddr struct {
+	text string
+	addr [16]byte
+	v6   bool
+}
+
+var vClientTexts = []vTextAddr{
+	{"203.0.113.7", [16]byte{12: 203, 13: 0, 14: 113, 15: 7}, false},
+	{"10.1.2.3", [16]byte{12: 10, 13: 1, 14: 2, 15: 3}, false},
+	{"64:ff9b::203.0.113.7", [16]byte{1: 0x64, 2: 0xff, 3: 0x9b, 12: 203, 13: 0, 14: 113, 15: 7}, true},
+	{"64:ff9b::cb00:7107", [16]byte{1: 0x64, 2: 0xff, 3: 0x9b, 12: 203, 13: 0, 14: 113, 15: 7}, true},
+	{"2001:db8::1", [16]byte{0: 0x20, 1: 0x01, 2: 0x0d, 3: 0xb8, 15: 1}, true},
+}
+
+var vPoolText = []vNet{
+	{"203.0.113.0/24", [16]byte{12: 203, 13: 0, 14: 113}, 24, false},
+	{"64:ff9b::/96", [16]byte{1: 0x64, 2: 0xff, 3: 0x9b}, 96, true},
+	{"10.0.0.0/8", [16]byte{12: 10}, 8, false},
+	{"2001:db8::/32", [16]byte{0: 0x20, 1: 0x01, 2: 0x0d, 3: 0xb8}, 32, true},
+}
+
+func verifC05_ClientText() {
+	allow := vPick("allow", vPoolText, 1)
+	block := vPick("block", vPoolText, 2)
+	spec := &Spec{BlockByDefault: verifBool("blockByDefault"), AllowIPs: vTexts(allow), BlockIPs: vTexts(block)}
+	f := New(spec)
+	c := vClientTexts[verifChoose("client.text", len(vClientTexts))]
+	got := f.Allow(c.text)
+	inAllow, inBlock := false, false
+	for _, n := range allow {
+		if vIn(c.addr, n, c.v6) {
+			inAllow = true
+		}
+	}
+	for _, n := range block {
+		if vIn(c.addr, n, c.v6) {
+			inBlock = true
+		}
+	}
+	denied := (inBlock && !inAllow) || ((inBlock == inAllow) && spec.BlockByDefault)
+	verifAssert(got == !denied, "allow-block-decision-table-with-prefix-semantics")
+	if c.v6 && c.addr[12] == 203 && inBlock && !inAllow {
+		verifCover("ipv6-client-with-dotted-tail-denied")
+	}
+}
+
 func verifC05_DecisionV4() { vDecision(false) }
 func verifC05_DecisionV6() { vDecision(true) }
 
